@@ -20,22 +20,25 @@ type externalFn func(fr *frame, args []value) value
 
 // Engine is shared, read-only configuration for all paths of all harnesses.
 type Engine struct {
-	Prog         *ssa.Program
-	MainPkg      *ssa.Package
-	MaxSteps     int64
-	MaxPaths     int
-	Workers      int
-	SolverKind   string
-	TimeoutMs    int
-	NoIfConvert  bool
-	Trace        bool
-	CrossCheck   bool // discharge assertion queries on cvc5 too
-	NoModelGuide bool
-	externals    map[string]externalFn
-	overrides    map[string]*ssa.Function // fn.String() -> harness function
-	SkipInitPkgs map[string]bool
-	mu           sync.Mutex
-	StubsHit     map[string]int
+	Prog          *ssa.Program
+	MainPkg       *ssa.Package
+	MaxSteps      int64
+	MaxPaths      int
+	Workers       int
+	SolverKind    string
+	TimeoutMs     int
+	NoIfConvert   bool
+	Trace         bool
+	CrossCheck    bool // discharge assertion queries on cvc5 too
+	NoModelGuide  bool
+	Deadline      time.Time
+	HarnessBudget time.Duration
+	externals     map[string]externalFn
+	overrides     map[string]*ssa.Function // fn.String() -> harness function
+	SkipInitPkgs  map[string]bool
+	mu            sync.Mutex
+	StubsHit      map[string]int
+	pdomCache     map[*ssa.Function]*pdomInfo
 }
 
 func (e *Engine) skipInit(pkg *ssa.Package) bool {
@@ -139,7 +142,11 @@ func (p *pathState) check(extra *Term, wantModel bool) (Verdict, map[string]uint
 	if extra != nil {
 		p.solver.Send("(assert " + ref(extra) + ")\n")
 	}
+	tq := time.Now()
 	v := p.solver.CheckSat()
+	if slowMs > 0 && time.Since(tq) > time.Duration(slowMs)*time.Millisecond {
+		fmt.Fprintf(os.Stderr, "SLOW %v %s extra=%s\n", time.Since(tq), v, describeTerm(extra, 3))
+	}
 	p.stats.Queries++
 	var model map[string]uint64
 	var ufVals map[int]uint64
@@ -248,6 +255,9 @@ func (fr *frame) branch(c *Term, why string) bool {
 		panic(pathAbort{"speculate", "branch during speculation"})
 	}
 	p.stats.Branches++
+	if !i.eng.Deadline.IsZero() && time.Now().After(i.eng.Deadline) {
+		panic(pathAbort{"budget", "wall-clock deadline reached"})
+	}
 	if p.replaying() {
 		d := p.script[p.pos]
 		p.pos++
@@ -564,6 +574,9 @@ func (h *harnessRun) noteDischarged(label string, smt bool) {
 // RunHarness explores all paths of harness function fn.
 func (e *Engine) RunHarness(fn *ssa.Function) *HarnessResult {
 	t0 := time.Now()
+	if e.HarnessBudget > 0 {
+		e.Deadline = t0.Add(e.HarnessBudget)
+	}
 	h := &harnessRun{eng: e, fn: fn, name: fn.Name()}
 	h.res = &HarnessResult{Name: fn.Name(), Obligations: map[string]int{}, Discharged: map[string]int{},
 		Reached: map[string]int{}, Funcs: map[string]bool{}, Stubs: map[string]int{}}
@@ -612,6 +625,16 @@ func (e *Engine) RunHarness(fn *ssa.Function) *HarnessResult {
 				work = work[:len(work)-1]
 				active++
 				started++
+				if !e.Deadline.IsZero() && time.Now().After(e.Deadline) {
+					abort = true
+					active--
+					mu.Unlock()
+					h.mu.Lock()
+					h.res.Inconclusive = append(h.res.Inconclusive, fmt.Sprintf("wall-clock budget %v exhausted with %d paths pending", e.HarnessBudget, len(work)+1))
+					h.mu.Unlock()
+					cond.Broadcast()
+					return
+				}
 				if started > e.MaxPaths {
 					abort = true
 					active--
@@ -810,3 +833,32 @@ func panicString(i *interpreter, v value) string {
 }
 
 var _ = types.Int
+
+var slowMs = func() int {
+	var v int
+	fmt.Sscanf(os.Getenv("GOSYM_SLOW"), "%d", &v)
+	return v
+}()
+
+func describeTerm(t *Term, depth int) string {
+	if t == nil {
+		return "<pc>"
+	}
+	if t.Op == OpConst || t.Op == OpVar || depth == 0 {
+		if t.Op == OpConst || t.Op == OpVar {
+			return ref(t)
+		}
+		return "…"
+	}
+	s := "(" + opNames[t.Op]
+	if t.Op == OpExtract {
+		s = fmt.Sprintf("(extract[%d:%d]", t.K, t.K2)
+	}
+	if t.Op == OpUF {
+		s = "(" + t.Name
+	}
+	for _, a := range t.A {
+		s += " " + describeTerm(a, depth-1)
+	}
+	return s + ")"
+}
